@@ -375,6 +375,11 @@ def prepare_attr_value(
     Returns:
         The prepared value.
     """
+    if value is UNCHANGED:
+        # Nothing is to be assigned (`mutate_attr` treats this as a no-op), so
+        # there is nothing to prepare; in particular no empty collection should
+        # be created in place of the existing value.
+        return UNCHANGED
     value = mutate_value(
         old_value=MISSING,
         new_value=value,
